@@ -306,13 +306,14 @@ def vsweep(V, es=None, ss=(1, 2, 3), fs=(0, 1, 2), both=True, rot=0):
             out.append((N, e, s, sl))
     return out
 
-def lead_axis(fixed, M, n, allow_int=True):
-    """n-th choice for a leading axis of extent M (M >= 3): dynamic or compile-time vocabulary."""
+def lead_axis(fixed, M, n, allow_int=True, pure=False):
+    """n-th choice for a leading axis of extent M (M >= 3): dynamic or compile-time vocabulary.
+    pure: no compile-time `all` next to dynamic ranges (a const rank-2 tensor does not accept seq/fseq mixtures)."""
     if fixed:
         menu = [fseq(0, M), fseq(1, M), fseq(0, M, 2), ALL, fseq(0, -1, 2), fseq(-M, -1), fseq(1, -2)]
         if allow_int: menu += [fix(1), FIXLAST, fix(0)]
     else:
-        menu = [seq(0, M), seq(1, M), seq(0, M, 2), SALL, seq(0, -1, 2), seq(-M, -1), seq(1, -2), ALL]
+        menu = [seq(0, M), seq(1, M), seq(0, M, 2), SALL, seq(0, -1, 2), seq(-M, -1), seq(1, -2), ALL if not pure else SALL]
         if allow_int: menu += [ix(1), LAST, FIRST]
     return menu[n % len(menu)]
 
@@ -378,7 +379,7 @@ def cases(tier, seed):
                     if e > 17 and not thorough: continue
                     for src in (SRC if thorough and main and isa in QUICK_ISAS else [SRC[(n + ti + 1) % 3]]):
                         M = 3
-                        sl2 = [(lead_axis(fixed, M, n + q), ax1(kind, f, l, s, N, enc)) for q, (f, l, enc) in enumerate(sl[:3] if not thorough else sl)]
+                        sl2 = [(lead_axis(fixed, M, n + q, pure=(src == 'const')), ax1(kind, f, l, s, N, enc)) for q, (f, l, enc) in enumerate(sl[:3] if not thorough else sl)]
                         out.append(read_case('%s2v-%s' % (kind, src), ty, (M, N), sl2, cfg, src=src, ident='e%d.s%d' % (e, s)))
             # ---------------- rank 2: products of triples ----------------
             if thorough:
@@ -435,7 +436,8 @@ def cases(tier, seed):
             for kind in ('seq', 'fseq'):
                 fixed = kind == 'fseq'
                 for n, (N, e, s, sl) in enumerate(vsweep(V, es=[V, V + 1] if not thorough else [V - 1, V, V + 1, 2 * V] if V > 1 else [1, 2], ss=(1, 2), fs=(0, 1), both=False, rot=ti)):
-                    if V > 8 and not thorough and s == 2: continue
+                    if not thorough and (s == 2 and (V > 8 or fixed)): continue
+                    if not thorough and fixed and e != V: continue
                     src = SRC[(n + ti + ni) % 3]
                     sl3 = [(lead_axis(fixed, 3, 2 * n + q + 1), lead_axis(fixed, 3, n + 3 * q), ax1(kind, f, l, s, N, enc)) for q, (f, l, enc) in enumerate(sl)]
                     sl3 = [a for a in sl3 if not all(x.is_integer() for x in a)]
@@ -456,7 +458,7 @@ def cases(tier, seed):
                     fixed = kind == 'fseq'
                     src = SRC[(n + ti + fixed) % 3]
                     a1 = [(ax1(kind, f, l, s, N, enc),) for (f, l, enc) in sl]
-                    a2 = [(lead_axis(fixed, 3, n + q + ti), ax1(kind, f, l, s, N, enc)) for q, (f, l, enc) in enumerate(sl)]
+                    a2 = [(lead_axis(fixed, 3, n + q + ti, pure=(src == 'const')), ax1(kind, f, l, s, N, enc)) for q, (f, l, enc) in enumerate(sl)]
                     idt = 'e%d.s%d' % (e, s)
                     r1 = (n + ki + ti + ni) % 2 == 0          # quick: rank 1 and rank 2 alternate
                     if ty.kind == 'float':
@@ -465,7 +467,8 @@ def cases(tier, seed):
                     if ty.kind == 'int' or e <= 9:
                         cfx = cfg if ty.kind == 'int' else Cfg(isa, std, pipe='P0')
                         if thorough or not r1: out.append(read_case('%s1dbl-%s' % (kind, src), ty, (N,), a1[:1], cfx, src=src, ident=idt, expr='dbl'))
-                        if thorough or r1: out.append(read_case('%s2dbl-%s' % (kind, src), ty, (3, N), a2[1:], cfx, src=src, ident=idt, expr='dbl'))
+                        # float: uninterpreted additions, keep the slice small (<= ~18 elements)
+                        if (thorough or r1) and (ty.kind == 'int' or e <= 6): out.append(read_case('%s2dbl-%s' % (kind, src), ty, (3, N), a2[1:2] if ty.kind == 'float' else a2[1:], cfx, src=src, ident=idt, expr='dbl'))
                         # two slices with different ranges of equal extent, and a slice with a tensor
                         other = ax1('seq' if fixed else 'fseq', 1, 1 + e, 1, e + 2, 'pos')
                         ops = ['+', '-'] if ty.kind == 'int' else ['+', '-', '*', '/']
